@@ -571,7 +571,7 @@ func genRuns(r *simkit.RNG, sc *Scenario, k *knobs, profile string) {
 		}
 		sc.Runs = []PackRun{p}
 		if r.Chance(1, 10) {
-			sc.RulesKind = simkit.Pick(r, []string{"dir", "longline"})
+			sc.RulesKind = simkit.Pick(r, []string{"dir", "longline", "fifo"})
 		}
 		switch r.Intn(7) {
 		case 6:
@@ -700,7 +700,7 @@ func genRuns(r *simkit.RNG, sc *Scenario, k *knobs, profile string) {
 		p := run()
 		sc.Runs = []PackRun{p}
 		if k.rules && r.Chance(1, 4) {
-			sc.RulesKind = simkit.Pick(r, []string{"dir", "longline"})
+			sc.RulesKind = simkit.Pick(r, []string{"dir", "longline", "fifo"})
 		}
 	}
 }
